@@ -372,8 +372,16 @@ func init() {
 		if v, ok := canonicalIntOf(tb, s); ok {
 			return tuple{sym{types.Float64, tb.ToReal(v)}, iface{}}
 		}
-		x.abandon("strconv.ParseFloat on a symbolic string that is not a %d/%.0f rendering")
-		return nil
+		// arbitrary symbolic string: an over-approximation decoupled from the string theory - the
+		// call either fails or yields some value of bounded magnitude (NaN/Inf spellings and larger
+		// magnitudes are outside the float model)
+		x.noteAssume("strconv.ParseFloat model: on an arbitrary symbolic string the call either fails or returns an arbitrary value of magnitude <= 10^7 (over-approximation; larger magnitudes, NaN and Inf are outside the float model)")
+		if x.decide(x.fresh("pferr", smt.Bool)) {
+			return tuple{float64(0), fr.i.mkError("strconv.ParseFloat: parsing: invalid syntax")}
+		}
+		pv := x.fresh("pfval", smt.Real)
+		x.assume(tb.Le(tb.Abs(pv), tb.FloatC(1e7)))
+		return tuple{sym{types.Float64, pv}, iface{}}
 	}
 	symModels["strconv.FormatInt"] = func(fr *frame, args []value) value {
 		x := fr.i.x
